@@ -328,7 +328,7 @@ class CG:
         cut = {'println': h_println, 'gen_expr': h_gen('gen_expr'), 'gen_stmt': h_gen('gen_stmt'), 'gen_addr': h_gen('gen_addr')}
         if extra_cut:
             cut.update(extra_cut)
-        cfg = {'cut': cut, 'lazy_field': self.lazy_field, 'opaque': ['count', 'has_flonum'] + list(opaque),
+        cfg = {'cut': cut, 'lazy_field': self.lazy_field, 'opaque': ['count', 'has_flonum', 'has_ldouble', 'is_ldouble_only'] + list(opaque),
                'globals': {'depth': Sym('depth0', 'int')}, 'loop_limit': loop_limit, 'models': models or {}}
         return Interp(self.P, self.cu, cfg)
 
